@@ -42,13 +42,13 @@ class EidField(CborField):
 
         if scheme_type == EidField.TypeCode.dtn:
             authority = parts[1]
-            path = parts[2]
-            ssp = ''
+            # everything after the scheme, including any "?" or "#" part
+            ssp = x[len(parts[0]) + 1:]
             if authority:
-                ssp += '//' + authority
-                if not path.startswith('/'):
-                    path = '/' + path
-            ssp += path
+                rest = ssp[2 + len(authority):]
+                if not rest.startswith('/'):
+                    rest = '/' + rest
+                ssp = '//' + authority + rest
 
             return [scheme_type, ssp]
 
